@@ -145,6 +145,7 @@ class Reader:
         self.atom_defs = {}       # name -> defining expression (in terms of earlier atoms)
         self.atom_order = []
         self.statics = {}         # id -> name of the function-local statics met (E-PURE)
+        self.unroll = 0           # > 0: for-loops whose condition evaluates to a concrete truth value are unrolled (at most this many iterations)
 
     # -- entry ---------------------------------------------------------
     def run(self, fn, args=None, this=('this',), state=None, depth=0):
@@ -342,6 +343,34 @@ class Reader:
             return out
         if k == 'Null':
             return [st]
+        if k == 'For' and self.unroll:
+            # concrete-size instance: the loop is unrolled as long as its condition has a concrete truth value
+            states = self.ex(s.get('init'), st, ctx) if s.get('init') is not None else [st]
+            out, cur, iters = [], states, 0
+            while cur:
+                nxt = []
+                for x in cur:
+                    if x.returned:
+                        out.append(x)
+                        continue
+                    conds = self.ev(s['c'], x, ctx) if s.get('c') is not None else [(sp.true, x)]
+                    for (c, x2) in conds:
+                        t = _truth(c)
+                        if t is None:
+                            raise Unsupported('loop condition %s has no concrete truth value at %s' % (c, s.get('loc')))
+                        if not t:
+                            out.append(x2)
+                            continue
+                        for b in self.ex(s.get('b'), x2, ctx):
+                            if b.returned or s.get('inc') is None:
+                                nxt.append(b)
+                            else:
+                                nxt += [s3 for (_, s3) in self.ev(s['inc'], b, ctx)]
+                cur = nxt
+                iters += 1
+                if iters > self.unroll:
+                    raise Unsupported('loop at %s not finished after %d iterations' % (s.get('loc'), self.unroll))
+            return out
         raise Unsupported('statement %s at %s' % (s.get('cls', k), s.get('loc')))
 
     def decl(self, v, st, ctx):
